@@ -179,7 +179,7 @@ func (b *TemplateBuilder) buildTranslate() {
 	b.Translate = caseCodes
 	caseCodes = ""
 	for _, sy := range b.vnode.G.Symbols {
-		caseCodes += fmt.Sprintf("\tcase %d:\n \tconv = \"%s\"\n", sy.ID, parser.RemoveTempName(sy.Name))
+		caseCodes += fmt.Sprintf("\tcase %d:\n \tconv = %q\n", sy.ID, parser.RemoveTempName(sy.Name))
 	}
 	b.TranslateTrace = caseCodes
 	caseCode := ""
@@ -193,6 +193,9 @@ func (b *TemplateBuilder) buildTranslate() {
 		}
 		strTrace := fmt.Sprintf("%s -> %s",
 			leftPartString, rightPartString)
+		// the rule text becomes part of a Go string literal used as a Printf
+		// format: quote and percent characters of literal tokens are escaped
+		strTrace = strings.NewReplacer("\\", "\\\\", "\"", "\\\"", "%", "%%").Replace(strTrace)
 		caseCode += fmt.Sprintf("\n\t\tfmt.Printf(\"look ahead %%s, %s, go to state %%d\\n\", look, s)\n", strTrace)
 	}
 	b.ReduceTrace = caseCode
